@@ -369,7 +369,7 @@ impl MHeader {
             rest: List::new((Lab::Int(0), Val::Null)),
         }
     }
-    fn check(&self, h: &Header) {
+    fn check(&self, h: &Header, upto: usize) {
         assert!(alg_is(&self.alg, &h.alg));
         assert!(h.crit.len() == self.crit.n);
         assert!(self.content_type.is(&h.content_type));
@@ -379,7 +379,7 @@ impl MHeader {
         assert!(h.counter_signatures.len() == self.counter_signatures.n);
         assert!(h.rest.len() == self.rest.n);
         let mut k = 0;
-        while k < CAP {
+        while k < upto {
             if k < self.crit.n {
                 assert!(self.crit.items[k].is(&h.crit[k]));
             }
@@ -414,135 +414,141 @@ fn header_label_reserved(l: i64) -> bool {
     1 <= l && l <= 7
 }
 
-fn header_seq<const STEPS: usize>(allowed: u16) {
-    let mut b = HeaderBuilder::new();
-    let mut m = MHeader::new();
-    let mut ops = [0u8; STEPS];
-    let mut nonempty = [false; STEPS];
-    let mut s = 0;
-    while s < STEPS {
-        let op: u8 = kani::any();
-        kani::assume(op < H_OPS && (allowed >> op) & 1 == 1);
-        ops[s] = op;
-        match op {
-            H_KEY_ID => {
-                let v = Bytes::any();
-                nonempty[s] = v.len > 0;
-                b = b.key_id(v.mk());
-                m.key_id = v;
-            }
-            H_ALGORITHM => {
-                let a: iana::Algorithm = any_enum();
-                b = b.algorithm(a);
-                m.alg = Some(a);
-            }
-            H_ADD_CRITICAL => {
+/// History of the calls made so far (for the `cover!` witnesses).
+#[derive(Clone, Copy)]
+struct Hist {
+    n: usize,
+    op: [u8; CAP],
+    nonempty: [bool; CAP],
+}
+
+impl Hist {
+    fn new() -> Self {
+        Hist { n: 0, op: [0xff; CAP], nonempty: [false; CAP] }
+    }
+    fn then(mut self, op: u8, nonempty: bool) -> Self {
+        self.op[self.n] = op;
+        self.nonempty[self.n] = nonempty;
+        self.n += 1;
+        self
+    }
+    fn last(&self) -> usize {
+        self.n - 1
+    }
+}
+
+/// Apply `left` more symbolic calls to `b` (and their documented effect to `m`), then build and
+/// compare.  Written as a recursion so that every call sequence is checked on its own path: CBMC
+/// merges heap state at control-flow joins, and a merged `Vec` (allocated or not, 0 or 1
+/// elements) makes every later `push` explore `realloc` with symbolic sizes.
+fn header_go(b: HeaderBuilder, mut m: MHeader, hist: Hist, left: usize) {
+    if left == 0 {
+        header_done(b.build(), &m, &hist);
+        return;
+    }
+    let op: u8 = kani::any();
+    kani::assume(op < H_OPS);
+    match op {
+        H_KEY_ID => {
+            let v = Bytes::any();
+            m.key_id = v;
+            header_go(b.key_id(v.mk()), m, hist.then(op, v.len > 0), left - 1)
+        }
+        H_ALGORITHM => {
+            let a: iana::Algorithm = any_enum();
+            m.alg = Some(a);
+            header_go(b.algorithm(a), m, hist.then(op, true), left - 1)
+        }
+        H_ADD_CRITICAL => {
+            let p: iana::HeaderParameter = any_enum();
+            m.crit.push(Crit::Assigned(p));
+            header_go(b.add_critical(p), m, hist.then(op, true), left - 1)
+        }
+        H_ADD_CRITICAL_LABEL => {
+            if kani::any() {
                 let p: iana::HeaderParameter = any_enum();
-                b = b.add_critical(p);
                 m.crit.push(Crit::Assigned(p));
-            }
-            H_ADD_CRITICAL_LABEL => {
-                if kani::any() {
-                    let p: iana::HeaderParameter = any_enum();
-                    b = b.add_critical_label(RegisteredLabel::Assigned(p));
-                    m.crit.push(Crit::Assigned(p));
-                } else {
-                    let t = Txt::any();
-                    b = b.add_critical_label(RegisteredLabel::Text(t.mk()));
-                    m.crit.push(Crit::Text(t));
-                }
-            }
-            H_CONTENT_FORMAT => {
-                let f: iana::CoapContentFormat = any_enum();
-                b = b.content_format(f);
-                m.content_type = Ctype::Format(f);
-            }
-            H_CONTENT_TYPE => {
+                header_go(b.add_critical_label(RegisteredLabel::Assigned(p)), m, hist.then(op, true), left - 1)
+            } else {
                 let t = Txt::any();
-                b = b.content_type(t.mk());
-                m.content_type = Ctype::Text(t);
-            }
-            H_IV => {
-                let v = Bytes::any();
-                nonempty[s] = v.len > 0;
-                b = b.iv(v.mk());
-                m.iv = v;
-                m.partial_iv = Bytes::EMPTY;
-            }
-            H_PARTIAL_IV => {
-                let v = Bytes::any();
-                nonempty[s] = v.len > 0;
-                b = b.partial_iv(v.mk());
-                m.partial_iv = v;
-                m.iv = Bytes::EMPTY;
-            }
-            H_ADD_COUNTER_SIGNATURE => {
-                let g = Sig::any();
-                b = b.add_counter_signature(g.mk());
-                m.counter_signatures.push(g);
-            }
-            H_VALUE => {
-                let l: i64 = kani::any();
-                kani::assume(!header_label_reserved(l));
-                let v = Val::any();
-                b = b.value(l, v.mk());
-                m.rest.push((Lab::Int(l), v));
-            }
-            _ => {
-                let t = Txt::any();
-                let v = Val::any();
-                b = b.text_value(t.mk(), v.mk());
-                m.rest.push((Lab::Text(t), v));
+                m.crit.push(Crit::Text(t));
+                header_go(b.add_critical_label(RegisteredLabel::Text(t.mk())), m, hist.then(op, false), left - 1)
             }
         }
-        s += 1;
+        H_CONTENT_FORMAT => {
+            let f: iana::CoapContentFormat = any_enum();
+            m.content_type = Ctype::Format(f);
+            header_go(b.content_format(f), m, hist.then(op, true), left - 1)
+        }
+        H_CONTENT_TYPE => {
+            let t = Txt::any();
+            m.content_type = Ctype::Text(t);
+            header_go(b.content_type(t.mk()), m, hist.then(op, t.len > 0), left - 1)
+        }
+        H_IV => {
+            let v = Bytes::any();
+            m.iv = v;
+            m.partial_iv = Bytes::EMPTY;
+            header_go(b.iv(v.mk()), m, hist.then(op, v.len > 0), left - 1)
+        }
+        H_PARTIAL_IV => {
+            let v = Bytes::any();
+            m.partial_iv = v;
+            m.iv = Bytes::EMPTY;
+            header_go(b.partial_iv(v.mk()), m, hist.then(op, v.len > 0), left - 1)
+        }
+        H_ADD_COUNTER_SIGNATURE => {
+            let g = Sig::any();
+            m.counter_signatures.push(g);
+            header_go(b.add_counter_signature(g.mk()), m, hist.then(op, true), left - 1)
+        }
+        H_VALUE => {
+            let l: i64 = kani::any();
+            kani::assume(!header_label_reserved(l));
+            let v = Val::any();
+            m.rest.push((Lab::Int(l), v));
+            header_go(b.value(l, v.mk()), m, hist.then(op, true), left - 1)
+        }
+        _ => {
+            let t = Txt::any();
+            let v = Val::any();
+            m.rest.push((Lab::Text(t), v));
+            header_go(b.text_value(t.mk(), v.mk()), m, hist.then(op, true), left - 1)
+        }
     }
-    let h = b.build();
-    m.check(&h);
+}
+
+fn header_done(h: Header, m: &MHeader, hist: &Hist) {
+    m.check(&h, hist.n);
     // the consequence named in the property text
     assert!(h.iv.is_empty() || h.partial_iv.is_empty());
 
     // witnesses
-    kani::cover!(ops[0] == H_IV && nonempty[0] && ops[1] == H_PARTIAL_IV && nonempty[1] && h.iv.is_empty());
-    kani::cover!(ops[0] == H_PARTIAL_IV && nonempty[0] && ops[1] == H_IV && nonempty[1] && h.partial_iv.is_empty());
-    kani::cover!(ops[0] == H_IV && nonempty[0] && ops[STEPS - 1] == H_PARTIAL_IV && !nonempty[STEPS - 1]
-        && h.iv.is_empty() && h.partial_iv.is_empty());
-    kani::cover!(ops[0] == H_KEY_ID && nonempty[0] && ops[STEPS - 1] == H_KEY_ID && !nonempty[STEPS - 1]);
-    kani::cover!(ops[0] == H_CONTENT_FORMAT && ops[1] == H_CONTENT_TYPE);
-    kani::cover!(ops[0] == H_ALGORITHM && ops[1] == H_ALGORITHM);
-    kani::cover!(h.rest.len() == STEPS);
-    kani::cover!(h.crit.len() == STEPS);
-    kani::cover!(h.counter_signatures.len() == 2);
-    kani::cover!(h.rest.len() > 0 && matches!(h.rest[0].0, Label::Int(0)));
-    kani::cover!(h.rest.len() > 0 && matches!(h.rest[0].0, Label::Int(8)));
+    let (op, ne, z) = (&hist.op, &hist.nonempty, hist.last());
+    kani::cover!(op[0] == H_IV && ne[0] && op[1] == H_PARTIAL_IV && ne[1] && h.iv.is_empty());
+    kani::cover!(op[0] == H_PARTIAL_IV && ne[0] && op[1] == H_IV && ne[1] && h.partial_iv.is_empty());
+    kani::cover!(op[0] == H_IV && ne[0] && op[z] == H_PARTIAL_IV && !ne[z] && h.iv.is_empty() && h.partial_iv.is_empty());
+    kani::cover!(op[0] == H_KEY_ID && ne[0] && op[z] == H_KEY_ID && !ne[z]);
+    kani::cover!(op[0] == H_CONTENT_FORMAT && op[1] == H_CONTENT_TYPE);
+    kani::cover!(h.rest.len() == hist.n && h.rest.len() >= 2 && matches!(h.rest[0].0, Label::Int(0)) && matches!(h.rest[1].0, Label::Int(8)));
     kani::cover!(h.rest.len() > 0 && matches!(h.rest[0].0, Label::Int(i64::MIN)));
-    kani::cover!(ops[0] == H_VALUE && ops[1] == H_TEXT_VALUE && ops[STEPS - 1] == H_VALUE);
+    kani::cover!(h.crit.len() == hist.n);
+    kani::cover!(h.counter_signatures.len() == 2);
     core::mem::forget(h);
 }
 
 #[kani::proof]
 #[kani::unwind(7)]
 #[kani::stub(alloc::fmt::format, format_stub)]
-fn c19_header_seq3() {
-    header_seq::<3>(0x7ff);
+fn c19_header_seq2() {
+    header_go(HeaderBuilder::new(), MHeader::new(), Hist::new(), 2);
 }
+
 #[kani::proof]
 #[kani::unwind(7)]
 #[kani::stub(alloc::fmt::format, format_stub)]
-fn probe_header_a() {
-    header_seq::<3>(0x0c3);
-}
-#[kani::proof]
-#[kani::unwind(7)]
-#[kani::stub(alloc::fmt::format, format_stub)]
-fn probe_header_b() {
-    header_seq::<3>(0x0c7);
-}
-#[kani::proof]
-#[kani::unwind(7)]
-#[kani::stub(alloc::fmt::format, format_stub)]
-fn probe_header_c() {
-    header_seq::<3>(0x0e1);
+fn c19x_header_seq3() {
+    header_go(HeaderBuilder::new(), MHeader::new(), Hist::new(), 3);
 }
 
 /// `value(l, _)` with a reserved label (1..=7) panics, whatever was called before.
@@ -561,19 +567,6 @@ fn c19_header_value_reserved_panics() {
         b = b.value(0, Value::Null);
     }
     let b = b.value(l, Val::any().mk());
-    returned_instead_of_panicking();
-    core::mem::forget(b);
-}
-
-/// Self-test of the guard-harness idiom (must FAIL): label 8 is not reserved.
-#[kani::proof]
-#[kani::should_panic]
-#[kani::unwind(7)]
-#[kani::stub(alloc::fmt::format, format_stub)]
-fn probe_marker_selftest() {
-    let l: i64 = kani::any();
-    kani::assume(1 <= l && l <= 8);
-    let b = HeaderBuilder::new().value(l, Value::Null);
     returned_instead_of_panicking();
     core::mem::forget(b);
 }
